@@ -8,6 +8,7 @@ import (
 	"math/big"
 	"reflect"
 	"sort"
+	"unsafe"
 
 	"verif/internal/h"
 
@@ -38,13 +39,17 @@ type ObjSpec struct {
 	Seed uint64 `json:"seed"`
 	K    [4]int `json:"k"`
 	Salt uint64 `json:"salt,omitempty"` // changes the coefficient content only (used to locate header bytes)
+	// Huge: the metadata (if the type has any) carries a scale >= 1e100 or <= 1e-100, which the fixed-size text encoding
+	// of rlwe.Scale cannot hold: every writing entry point has to fail cleanly for such an object.
+	Huge bool `json:"huge,omitempty"`
 }
 
 // rngs carries the structure generator (embedded: metadata, map keys, Galois elements) and the content generator c
 // (coefficients, seeds).
 type rngs struct {
 	*h.SplitMix
-	c *h.SplitMix
+	c    *h.SplitMix
+	huge bool
 }
 
 type entry struct {
@@ -80,7 +85,7 @@ func buildObj(p rlwe.Parameters, s ObjSpec) (codec, string, error) {
 	if e == nil {
 		return nil, "", fmt.Errorf("unknown type %q", s.T)
 	}
-	rng := &rngs{SplitMix: h.NewSplitMix(s.Seed), c: h.NewSplitMix(s.Seed ^ (s.Salt+1)*0x9e3779b97f4a7c15)}
+	rng := &rngs{SplitMix: h.NewSplitMix(s.Seed), c: h.NewSplitMix(s.Seed ^ (s.Salt+1)*0x9e3779b97f4a7c15), huge: s.Huge}
 	v, cls := e.build(p, s, rng)
 	return v, cls, nil
 }
@@ -180,6 +185,13 @@ func base2(k int) int {
 }
 
 func genScale(rng *rngs) (rlwe.Scale, string) {
+	if rng.huge {
+		e := 333 + rng.Intn(200) // 2^333 > 1e100
+		if rng.Intn(3) == 0 {
+			e = -e
+		}
+		return rlwe.NewScale(new(big.Float).SetPrec(128).SetMantExp(big.NewFloat(1), e)), "scale=huge"
+	}
 	switch rng.Intn(6) {
 	case 0:
 		return rlwe.NewScale(1), "scale=1"
@@ -571,4 +583,57 @@ func init() {
 		lq, lp := levels(p, k[0], k[1])
 		return fill(&multiparty.ShamirSecretShare{Poly: ringqp.NewPoly(p.N(), lq, lp)}, rng), fmt.Sprintf("lq=%d,lp=%d", lq, lp)
 	})
+}
+
+var scaleType = reflect.TypeOf(rlwe.Scale{})
+
+// hasUnencodableScale reports whether v contains an rlwe.Scale whose text form does not fit the fixed-size encoding
+// (sign, Inf, or an exponent of three digits: value >= 1e100 or < 1e-99).
+func hasUnencodableScale(v any) bool {
+	return scanScale(reflect.ValueOf(v), 0)
+}
+
+func scanScale(v reflect.Value, depth int) bool {
+	if depth > 12 {
+		return false
+	}
+	switch v.Kind() {
+	case reflect.Ptr, reflect.Interface:
+		return !v.IsNil() && scanScale(v.Elem(), depth+1)
+	case reflect.Struct:
+		if v.Type() == scaleType {
+			if !v.CanAddr() {
+				return false
+			}
+			sc := (*rlwe.Scale)(unsafe.Pointer(v.UnsafeAddr()))
+			if len(sc.Value.Text('e', rlwe.ScalePrecisionLog10)) != rlwe.ScalePrecisionLog10+6 {
+				return true
+			}
+			return sc.Mod != nil && len(new(big.Float).SetPrec(128).SetInt(sc.Mod).Text('e', rlwe.ScalePrecisionLog10)) != rlwe.ScalePrecisionLog10+6
+		}
+		if t := v.Type(); t == reflect.TypeOf(big.Int{}) || t == reflect.TypeOf(big.Float{}) {
+			return false
+		}
+		for i := 0; i < v.NumField(); i++ {
+			if scanScale(v.Field(i), depth+1) {
+				return true
+			}
+		}
+	case reflect.Map:
+		for _, k := range v.MapKeys() {
+			if scanScale(v.MapIndex(k), depth+1) {
+				return true
+			}
+		}
+	case reflect.Slice, reflect.Array:
+		if k := v.Type().Elem().Kind(); k != reflect.Struct && k != reflect.Ptr && k != reflect.Interface {
+			return false
+		}
+		for i := 0; i < v.Len() && i < 64; i++ {
+			if scanScale(v.Index(i), depth+1) {
+				return true
+			}
+		}
+	}
+	return false
 }
